@@ -98,7 +98,8 @@ class FilterCtx:
 
     def violation(self, mech, what, case):
         if "IndexError" in mech or mech.startswith(
-                ("process-crash", "out-of-bounds")):
+                ("process-crash", "out-of-bounds",
+                 "fea-table-address-out-of-range")):
             self._ctx.violation(
                 f"out-of-bounds:{self._origin}:{mech}"[:150], what,
                 {"kind": "borrowed", "pid": self._origin, "case": case})
@@ -395,6 +396,29 @@ def tsp_qap_corpus(r: Runner, rng):
                            f"n={n},i={i},j={j},y={'ub' if y0 == ub else 'lt'}",
                            lambda: fea_k(i, j, n, r.w(inst, "dist"),
                                          r.w(h, "h"), r.w(x, "x"), y0))
+    if not r.py:
+        # the real FEA (its own table allocation) on instances where a tour
+        # attains the upper tour-length bound
+        from moptipy.api.execution import Execution
+
+        from moptipyapps.tsp.fea1p1_revn import TSPFEA1p1revn
+        from moptipyapps.tsp.tour_length import TourLength
+        for n in (4, 5, 6, 7):
+            m = [[0 if i == j else 1 for j in range(n)] for i in range(n)]
+            for i in range(n):
+                m[i][(i + 1) % n] = m[(i + 1) % n][i] = 2
+            inst = Instance(f"ring{n}", 0, np.array(m))
+
+            def run_fea(inst=inst, n=n):
+                for seed in range(6):
+                    ex = (Execution().set_solution_space(
+                        Permutations.standard(n)).set_algorithm(
+                        TSPFEA1p1revn(inst)).set_objective(TourLength(inst))
+                        .set_max_fes(300).set_rand_seed(seed))
+                    with ex.execute():
+                        pass
+            r.call("TSPFEA1p1revn.solve", f"ring n={n}, tours at the upper "
+                   "bound", run_fea)
     for n in (1, 2, 3, 7):
         F = rng.integers(0, 9, (n, n))
         Dm = rng.integers(0, 9, (n, n))
